@@ -450,51 +450,60 @@ pub fn explore_dfs<Sys: System>(sys: &Sys, lim: &Limits) -> Report {
 		.collect();
 	rep.states += work.len() as u64;
 	let mut split_depth = 0;
-	while work.len() < 512 && split_depth < lim.max_depth && !work.is_empty() {
-		let mut next = Vec::new();
-		for it in work {
-			let mut fresh = 0;
-			for (a, cost) in sys.actions(&it.s, it.depth) {
-				let nd = it.dev + cost as u32;
+	// (chain-like systems never reach 512 items: after 6 layers the subtree phase takes over, whose
+	// recursion is itself parallel for deviation-bounded systems)
+	while work.len() < 512 && split_depth < lim.max_depth.min(6) && !work.is_empty() {
+		// the expansion of one layer is done in parallel too: a single step may be a macro-step of
+		// millions of calls (C07), and every (item, action) pair is an independent task
+		type Out<S, A> = (u64, u64, Vec<Violation>, Vec<Item<S, A>>, bool);
+		let pairs: Vec<(usize, Sys::Act, u8)> = work
+			.iter()
+			.enumerate()
+			.flat_map(|(i, it)| sys.actions(&it.s, it.depth).into_iter().map(move |(a, c)| (i, a, c)))
+			.collect();
+		let outs: Vec<(usize, Out<Sys::State, Sys::Act>)> = pairs
+			.par_iter()
+			.map(|(i, a, cost)| {
+				let it = &work[*i];
+				let mut o: Out<Sys::State, Sys::Act> = (0, 0, vec![], vec![], false);
+				let nd = it.dev + *cost as u32;
 				if nd > lim.max_dev {
-					continue;
+					return (*i, o);
 				}
-				let (ns, fail, ex) = match sys.step(&it.s, &a) {
+				let (ns, fail, ex) = match sys.step(&it.s, a) {
 					Step::Next(n) => (Some(n), None, false),
 					Step::Exempt(n, _) => (Some(n), None, true),
 					Step::Violation(f) => (None, Some(f), false),
 					Step::ViolationContinue(n, f) => (Some(n), Some(f), false),
-					Step::Prune => continue,
+					Step::Prune => return (*i, o),
 				};
-				rep.transitions += 1;
-				rep.exempt += ex as u64;
+				o.0 = 1;
+				o.1 = ex as u64;
 				let mut path = it.path.clone();
 				path.push(a.clone());
 				if let Some(f) = fail {
-					bag.push(Violation {
-						system: sys.name(),
-						init: it.init.clone(),
-						path: path.iter().map(|a| sys.show_act(a)).collect(),
-						failure: f,
-						deviations: nd,
-					});
+					o.2.push(Violation { system: sys.name(), init: it.init.clone(), path: path.iter().map(|a| sys.show_act(a)).collect(), failure: f, deviations: nd });
 				}
 				if let Some(ns) = ns {
-					rep.states += 1;
-					fresh += 1;
-					next.push(Item {
-						s: ns,
-						init: it.init.clone(),
-						path,
-						dev: nd,
-						depth: it.depth + 1,
-					});
+					o.4 = true;
+					o.3.push(Item { s: ns, init: it.init.clone(), path, dev: nd, depth: it.depth + 1 });
 				}
+				(*i, o)
+			})
+			.collect();
+		let mut fresh = vec![false; work.len()];
+		let mut next = Vec::new();
+		for (i, (tr, ex, vios, items, any)) in outs {
+			rep.transitions += tr;
+			rep.exempt += ex;
+			for v in vios {
+				bag.push(v);
 			}
-			if fresh == 0 {
-				rep.leaves += 1;
-			}
+			rep.states += items.len() as u64;
+			next.extend(items);
+			fresh[i] |= any;
 		}
+		rep.leaves += fresh.iter().filter(|f| !**f).count() as u64;
 		work = next;
 		split_depth += 1;
 	}
